@@ -24,16 +24,16 @@ inductive FsgErr where
   | fromMissing | fromInvalid | toMissing | toInvalid | probMissing | probMalformed
 deriving Repr, DecidableEq, Inhabited
 
-def kwBegin : List UInt8 := "FSG_BEGIN".toUTF8.toList
-def kwEnd : List UInt8 := "FSG_END".toUTF8.toList
-def kwN : List UInt8 := "N".toUTF8.toList
-def kwNumStates : List UInt8 := "NUM_STATES".toUTF8.toList
-def kwS : List UInt8 := "S".toUTF8.toList
-def kwStartState : List UInt8 := "START_STATE".toUTF8.toList
-def kwF : List UInt8 := "F".toUTF8.toList
-def kwFinalState : List UInt8 := "FINAL_STATE".toUTF8.toList
-def kwT : List UInt8 := "T".toUTF8.toList
-def kwTransition : List UInt8 := "TRANSITION".toUTF8.toList
+def kwBegin : List UInt8 := Generated.TextIn.fsgBeginDecl
+def kwEnd : List UInt8 := Generated.TextIn.fsgEndDecl
+def kwN : List UInt8 := Generated.TextIn.fsgNDecl
+def kwNumStates : List UInt8 := Generated.TextIn.fsgNumStatesDecl
+def kwS : List UInt8 := Generated.TextIn.fsgSDecl
+def kwStartState : List UInt8 := Generated.TextIn.fsgStartStateDecl
+def kwF : List UInt8 := Generated.TextIn.fsgFDecl
+def kwFinalState : List UInt8 := Generated.TextIn.fsgFinalStateDecl
+def kwT : List UInt8 := Generated.TextIn.fsgTDecl
+def kwTransition : List UInt8 := Generated.TextIn.fsgTransitionDecl
 
 /-- `0 == strncmp(word, kw, ptr - word)` for a token (non-empty, no NUL inside): the token is a
 prefix of the keyword -/
@@ -47,7 +47,7 @@ def headerValue (buf : Buf) (name : List UInt8) (short : Option (List UInt8)) :
     List (Span buf.size) → Option (List UInt8) × List (Span buf.size)
   | [] => (none, [])
   | l :: rest =>
-    if l.first == 35 then headerValue buf name short rest
+    if l.first == Generated.TextIn.fsgCommentChar then headerValue buf name short rest
     else match lineWords buf l with
       | [] => headerValue buf name short rest
       | w :: ws =>
@@ -148,7 +148,7 @@ def transLine (buf : Buf) (nState : Nat) (ws : List (Span buf.size)) (st : Trans
 def readTrans (buf : Buf) (nState : Nat) : List (Span buf.size) → TransSt → Except FsgErr TransSt
   | [], st => .ok st
   | l :: rest, st =>
-    if l.first == 35 then readTrans buf nState rest st
+    if l.first == Generated.TextIn.fsgCommentChar then readTrans buf nState rest st
     else match lineWords buf l with
       | [] => readTrans buf nState rest st
       | w :: ws =>
